@@ -1,5 +1,158 @@
 import Rivaas.Proto
-/- Driver for C04 (stub: not built yet) -/
-def main : IO UInt32 := do
-  IO.eprintln "driver for C04 is not built yet"
-  return 2
+import Rivaas.Model.Bind
+import Rivaas.Spec.Bind
+/-
+Driver for C04. Case line:
+  <id> <G|T> <tag 0..4> <maxDepth> <maxSlice> <maxMap> <csv> <baseAuto> <Ty> <init Val>
+       <nsrc> { <key> <nvals> <val>* }*  <ntbl> { <string> <i10> <i0> <u10> <u0> <f> <t> <d> <j> }*
+       => O <Val> | E <n> <name>* <D|L|M|C> | X
+  Ty  ::= P <code> | R Ty | L Ty | M Ty | T <n> { <name> <exported> <anon> <q> <p> <f> <h> <c> <default> Ty }*
+  Val ::= i <int> | u <nat> | f <bits> | b <0|1> | s <str> | t <str> | n | p Val | l <n> Val* | m <n> {<key> Val}* | S <n> Val*
+-/
+namespace Rivaas.DriverC04
+open Rivaas Rivaas.Proto Rivaas.Bind
+
+def pPrim : P Prim := do
+  let t ← tok
+  match t with
+  | "i0" => pure (.int 0) | "i8" => pure (.int 8) | "i16" => pure (.int 16) | "i32" => pure (.int 32) | "i64" => pure (.int 64)
+  | "u0" => pure (.uint 0) | "u8" => pure (.uint 8) | "u16" => pure (.uint 16) | "u32" => pure (.uint 32) | "u64" => pure (.uint 64)
+  | "f32" => pure .f32 | "f64" => pure .f64 | "b" => pure .bool | "s" => pure .str | "t" => pure .time | "d" => pure .dur
+  | _ => failure
+
+partial def pTy : P Ty := do
+  let k ← tok
+  match k with
+  | "P" => Ty.prim <$> pPrim
+  | "R" => Ty.ptr <$> pTy
+  | "L" => Ty.slice <$> pTy
+  | "M" => Ty.map <$> pTy
+  | "T" => Ty.struct <$> list (do
+      let name ← str; let ex ← bool; let an ← bool
+      let tags ← manyN 5 str
+      let d ← str
+      let t ← pTy
+      pure ({ name := name, exported := ex, anon := an, tags := tags, dflt := d }, t))
+  | _ => failure
+
+partial def pVal : P Val := do
+  let k ← tok
+  match k with
+  | "i" => Val.int <$> int
+  | "u" => Val.uint <$> nat
+  | "f" => Val.flt <$> nat
+  | "b" => Val.bool <$> bool
+  | "s" => Val.str <$> str
+  | "t" => Val.time <$> str
+  | "n" => pure .nil
+  | "p" => Val.ptr <$> pVal
+  | "l" => Val.list <$> list pVal
+  | "m" => Val.map <$> list (do let k ← str; let v ← pVal; pure (k, v))
+  | "S" => Val.struct <$> list pVal
+  | _ => failure
+
+def pEntry : P (Bytes × PEntry) := do
+  let s ← str
+  let i10 ← opt int; let i0 ← opt int; let u10 ← opt nat; let u0 ← opt nat
+  let f ← opt (do let a ← nat; let b ← nat; let o ← bool; let i ← bool; pure (a, b, o, i))
+  let t ← opt str
+  let d ← opt int
+  let j ← opt (list (do let k ← str; let v ← str; pure (k, v)))
+  pure (s, { i10 := i10, i0 := i0, u10 := u10, u0 := u0, f := f, t := t, d := d, j := j })
+
+def pTag : P Tag := do
+  let n ← nat
+  match n with
+  | 0 => pure .query | 1 => pure .path | 2 => pure .form | 3 => pure .header | 4 => pure .cookie
+  | _ => failure
+
+structure Case where
+  entry : String
+  tag : Tag
+  cfg : Cfg
+  ty : Ty
+  init : Val
+  src : Src
+  tbl : List (Bytes × PEntry)
+
+def pCase : P Case := do
+  let e ← tok
+  let tag ← pTag
+  let md ← nat; let ms ← nat; let mm ← nat; let csv ← bool; let ba ← bool
+  let ty ← pTy
+  let init ← pVal
+  let kvs ← list (do let k ← str; let vs ← list str; pure (k, vs))
+  let tbl ← list pEntry
+  pure { entry := e, tag := tag, cfg := { maxDepth := md, maxSlice := ms, maxMap := mm, csv := csv, baseAuto := ba },
+         ty := ty, init := init, src := { kind := tag, kvs := kvs }, tbl := tbl }
+
+def pErrClass : P Err := do
+  let t ← tok
+  match t with
+  | "D" => pure .depth | "L" => pure .sliceLen | "M" => pure .mapSize | "C" => pure .conv
+  | _ => failure
+
+def pObs : P Spec.Obs := do
+  let k ← tok
+  match k with
+  | "O" => Spec.Obs.ok <$> pVal
+  | "E" => do
+    let names ← list str
+    let c ← pErrClass
+    pure (.err (Spec.wrapErr names c))
+  | "X" => pure .panic
+  | _ => failure
+
+partial def encVal : Val → String
+  | .int i => s!"i {i}"
+  | .uint n => s!"u {n}"
+  | .flt n => s!"f {n}"
+  | .bool b => if b then "b 1" else "b 0"
+  | .str s => "s " ++ encStr s
+  | .time s => "t " ++ encStr s
+  | .nil => "n"
+  | .ptr v => "p " ++ encVal v
+  | .list vs => s!"l {vs.length}" ++ String.join (vs.map fun v => " " ++ encVal v)
+  | .map kvs => s!"m {kvs.length}" ++ String.join (kvs.map fun e => " " ++ encStr e.1 ++ " " ++ encVal e.2)
+  | .struct vs => s!"S {vs.length}" ++ String.join (vs.map fun v => " " ++ encVal v)
+
+def errParts : Err → List Bytes × Err
+  | .bind n e => let (ns, c) := errParts e; (n :: ns, c)
+  | e => ([], e)
+
+def encErr (e : Err) : String :=
+  let (ns, c) := errParts e
+  let cls := match c with
+    | .depth => "D" | .sliceLen => "L" | .mapSize => "M" | _ => "C"
+  s!"E {ns.length}" ++ String.join (ns.map fun n => " " ++ encStr n) ++ " " ++ cls
+
+def encObs : Spec.Obs → String
+  | .ok v => "O " ++ encVal v
+  | .err e => encErr e
+  | .panic => "X"
+
+def toObs : Outcome → Spec.Obs
+  | .ok v => .ok v
+  | .err e => .err e
+  | .panic => .panic
+
+def lookupP (tbl : List (Bytes × PEntry)) : Params := fun s => (assoc s tbl).getD {}
+
+def step (line : String) : String :=
+  match splitCase line with
+  | none => "? bad-line"
+  | some (id, inp, obs) =>
+    match runP pCase inp, runP pObs obs with
+    | some c, some o =>
+      let P := lookupP c.tbl
+      let m := toObs (bind P c.cfg c.tag c.ty c.init c.src)
+      let mi := encObs m == encObs o
+      let s := match c.ty with
+        | .struct fs => Spec.specOK P c.cfg c.tag fs c.init c.src o
+        | _ => false
+      verdict id mi s "-" (encObs m)
+    | _, _ => s!"{id} bad-case"
+
+end Rivaas.DriverC04
+
+def main : IO UInt32 := Rivaas.Proto.driverMain Rivaas.DriverC04.step
